@@ -489,7 +489,13 @@ def _js_type(t, openapi, refprefix):
         if req:
             out["required"] = req
         return out
+    if k in JS_EXT:          # kinds added by later properties (checks/gencode_common.py)
+        return JS_EXT[k](t, openapi, refprefix)
     raise NotExpressible("unknown kind " + k)
+
+
+JS_EXT = {}      # kind -> f(t, openapi, refprefix) -> JSON Schema / OpenAPI fragment
+CUE_EXT = {}     # kind -> f(cue_renderer, t) -> CUE expression
 
 
 def _js_nullable(t, openapi, refprefix):
@@ -588,6 +594,8 @@ class _Cue:
                         ft = "%s | *%s" % (base, self.lit(jv_to_py(f["def"])))
                 lines.append("%s%s: %s" % (f["n"], "" if f["req"] else "?", ft))
             return "{\n" + "\n".join("\t" + ln.replace("\n", "\n\t") for ln in lines) + "\n}"
+        if k in CUE_EXT:
+            return CUE_EXT[k](self, t)
         raise NotExpressible("unknown kind " + k)
 
     @staticmethod
